@@ -268,6 +268,9 @@ def analyse_python(job):
     return res
 
 
+analyse = analyse_python
+
+
 def load_extra_findings(chk):
     """VERIF_EXTRA_FINDINGS=<json> merges further known findings (same format as known_findings.json) for this run only; used
     to validate a check against findings that are proposed but not yet committed to known_findings.json."""
